@@ -55,7 +55,7 @@ var c11Ops = []string{
 	"ifaceFieldMissing", "ifaceFieldWrongType", "ifaceFieldContravariant", "ifaceArgMissing", "ifaceArgTypeDiffers", "ifaceExtraRequiredArg", "ifaceExtraOptionalArg",
 	"nonNullOfNonNull", "listOfNil", "nonNullOfNil",
 	"objectAsArgType", "inputObjectAsFieldType", "objectAsInputFieldType", "interfaceAsArgType",
-	"missingQuery", "duplicateUnionMember", "noResolveTypeNoIsTypeOf", "invalidDirectiveName", "directiveWithoutLocations",
+	"missingQuery", "duplicateUnionMember", "duplicateInterface", "noResolveTypeNoIsTypeOf", "invalidDirectiveName", "directiveWithoutLocations",
 }
 
 // libBuilder builds library types from the model, applying faults.
@@ -314,6 +314,10 @@ func (b *libBuilder) build() graphql.SchemaConfig {
 		}
 		if b.has("nilInterface", td.Name, "") != nil {
 			ifaces = append(ifaces, nil)
+		}
+		if b.has("duplicateInterface", td.Name, "") != nil && len(ifaces) > 0 {
+			// the first declared interface twice, the others after it
+			ifaces = append([]*graphql.Interface{ifaces[0]}, ifaces...)
 		}
 		cfg.Interfaces = ifaces
 		if td.HasIsTypeOf && !noIsTypeOf[td.Name] {
@@ -865,6 +869,15 @@ func TestC11(t *testing.T) {
 			want := map[string]string{"emptyEnumValues": model.KEnum, "invalidEnumValueName": model.KEnum, "nilEnumValueConfig": model.KEnum, "emptyUnionMembers": model.KUnion,
 				"nilUnionMember": model.KUnion, "duplicateUnionMember": model.KUnion, "emptyInputFields": model.KInput, "invalidInputFieldName": model.KInput,
 				"nilInputFieldConfig": model.KInput, "nilInputFieldType": model.KInput, "objectAsInputFieldType": model.KInput, "nilInterface": model.KObject}
+			if f.Op == "duplicateInterface" {
+				// an object that declares as many interfaces as possible
+				best := -1
+				for _, x := range s.Types {
+					if x.Kind == model.KObject && len(x.Interfaces) > best {
+						td, best = x, len(x.Interfaces)
+					}
+				}
+			}
 			if k, ok := want[f.Op]; ok {
 				for _, x := range s.Types {
 					if x.Kind == k {
